@@ -222,6 +222,8 @@ def real_ref(a, rx: RCtx):
 
 def real_order(o, rx: RCtx):
     e = real_ref(o["a"], rx)
+    if o.get("neg"):
+        e = -e  # a computed ordering key (the order stays total: negation is injective)
     if o.get("desc"):
         e = e.descending()
     if o.get("nulls") == "first":
